@@ -4,7 +4,7 @@ Require Import ExtrOcamlBasic.
 Extraction Language OCaml.
 Extraction "C19_model.ml" wire_anchor
   i8 u8 i16 u16 i32 u32 i64 u64 in_ty imax szw cast to_size_type
-  rank rank_dynamic dynamic_index extent extents_list ext_default ext_from_span ext_from_pack ext_convert ext_eqb
+  rank rank_dynamic dynamic_index extent extents_list ext_default ext_from_span ext_from_pack ext_convert conv_implicit ext_eqb
   fwd_prod rev_prod lay_stride lay_strides lay_required lay_map
   strided_ctor strided_default strided_of_layout layout_of_strided strided_stride strided_required strided_map
   tr_extents tr_required tr_map tr_stride
